@@ -13,7 +13,7 @@ DEVS = {  # deviation -> (types that exhibit it, invariant that must catch it)
     "DevAckMinLen44": (ACKS, "RoundTrip"),
     "DevPreallocFromCount": (["QueuedState"], "AllocProportional"),
 }
-ELEM_SIZE = [120, 72, 320]   # Codec.tla ElemSize
+ELEM_SIZE = [120, 72, 288]   # Codec.tla ElemSize
 HFILES = ["common/common_test.go.tmpl", "protocol/codec_test.go"]
 
 
@@ -69,8 +69,9 @@ def harness(ctx, vecs, hostile):
     inp = os.path.join(ctx.work, "codec_vecs.json")
     vf.write_json(inp, {"vecs": vecs, "hostile": hostile})
     q = ctx.quick()
-    env = {"ZZV_IN": inp, "ZZV_MUT": 40 if q else 1500, "ZZV_RAND": 400 if q else 8000,
-           "ZZV_PREFIX_FULL": 600 if q else 20000, "ZZV_PREFIX_SAMPLE": 150 if q else 2000}
+    env = {"ZZV_IN": inp, "ZZV_MUT": 100 if q else 1500, "ZZV_RAND": 2000 if q else 40000,
+           "ZZV_PREFIX_FULL": 1200 if q else 40000, "ZZV_PREFIX_SAMPLE": 100 if q else 1000,
+           "ZZV_PREFIX_CELLS": 150 if q else 3000}
     r = ctx.gotest("protocol", HFILES, "^TestZZVCodec$", env=env, timeout=3000)
     summ = r.of("summary")
     if not summ:
@@ -80,16 +81,22 @@ def harness(ctx, vecs, hostile):
     if not sizes or sizes[0]["elem"] != ELEM_SIZE:
         raise vf.Infra("Codec.tla ElemSize %s differs from unsafe.Sizeof %s (update the spec constant)" % (
             ELEM_SIZE, sizes and sizes[0]["elem"]))
+    viols = r.of("viol")
     binds = r.of("bind")
-    if summ["bind_errors"] or binds:
+    if (summ["bind_errors"] or binds) and not viols:
+        # the real encoder and decoder agree with each other but not with the grammar: the spec does not describe
+        # this code, no verdict possible
         b = binds[0] if binds else {}
         raise vf.Infra("binding broken: real encoding of %s differs from the Codec.tla layout (%d shapes; first: spec "
                        "len %s real len %s, first differing byte %s, skeleton %s)" % (
                            b.get("ty"), summ["bind_errors"], b.get("speclen"), b.get("reallen"), b.get("firstdiff"),
                            vf.canon(b.get("sk"))))
+    for b in binds:
+        ctx.log("note: real encoding of %s differs from the spec layout at byte %s (round trip %s)" % (
+            b.get("ty"), b.get("firstdiff"), "ok" if b.get("roundtrip_ok") else "FAILS"))
     if summ["shapes"] != len(vecs):
         raise vf.Infra("harness evaluated %d of %d shapes" % (summ["shapes"], len(vecs)))
-    return summ, r.of("viol")
+    return summ, viols
 
 
 def classify(ctx, v, vecs):
